@@ -1165,7 +1165,9 @@ fn render_match_type(type_def: &Type) -> String {
         | Type::Identifier { .. }
         | Type::ModuleType { .. }
         | Type::SelfDefault { .. } => true,
-        Type::Tuple(tuple_type) => tuple_type.is_partial,
+        // A tuple type is always wrapped: bare `[..]`/`(..)`/`P(..)` would re-parse as a tuple or
+        // partial *pattern* rather than a type.
+        Type::Tuple(_) => false,
         // `render_type` already parenthesises a union, so it needs no extra wrapping here.
         Type::Union(_) => true,
         _ => false,
